@@ -4,12 +4,14 @@ import gen, vf, oracles, pyspec, analytic
 from C01 import adversarial_upd
 
 
-def judge(ctx, line, st0, A, after, what, stats):
+def judge(ctx, line, st0, A, after, what, stats, reached=False):
+    # reached: the state was REACHED by the real code from a real start (a trajectory) -- it is judged whatever it looks like;
+    # an INSTALLED state with non-zero rows outside the vertex lists is not reachable (proved) and is set aside
     """st0 = state t, after = state t+1 (both from the implementation)"""
     N, K, L = st0.N, st0.K, st0.L
     u1, v1 = after.u, after.v
     stats['steps'] += 1
-    if not analytic.invariant_holds(st0, A):
+    if not reached and not analytic.invariant_holds(st0, A):
         stats['unreachable'] += 1
         return
     # preconditions evaluated on the observed states
@@ -86,7 +88,7 @@ def run(ctx):
                 its = sorted(sts)
                 for a, b in zip(its, its[1:]):
                     if b == a + 1:
-                        judge(ctx, traj[c - 600000], sts[a], A, sts[b], 'realization %d iteration %d' % (r, b), stats)
+                        judge(ctx, traj[c - 600000], sts[a], A, sts[b], 'realization %d iteration %d' % (r, b), stats, reached=True)
                         keys.add((m['directed'], m['assort'], m['from_init'], 'trajectory'))
     ctx.oracle.update({'evaluations': stats['steps'], 'distinct_nontrivial': len(keys), 'steps': stats,
                        'rule': 'for every observed iteration t -> t+1 of the real code (installed states and real trajectories, all 8 variants, integer and real weights) whose preconditions (i)-(iii) hold on the observed states: per layer, sum of rates under the new factors vs number of oriented edges minus the snapped mass (python reference), 1e-9 relative. distinct = (variant, regime)'})
